@@ -27,6 +27,26 @@ CLAIMS = {
              "agreement with the Rust code is established on the cases of each run only. Validation of inserted text is C15.",
         technique="Lean 4 proof (list lemmas, omega) + differential correspondence against the hand-written model",
         ref="DESIGN.md section 6 C16"),
+    "C17": dict(
+        text="The two tools are modelled as the compositions parser -> XPath evaluator (merged-text view) -> rewrite of the "
+             "information-set tree keyed as the evaluator keys nodes -> printer (lean/XmlRsModel/Cli.lean, all total "
+             "functions). Kernel-checked for all documents, selections and replacements: FRAME - an item with no selected "
+             "key at or below it is returned unchanged (elements, attribute lists, child lists, defaulted attributes); "
+             "EFFECT - a selected element keeps its name and attribute names and gets exactly the replacement as children, "
+             "an unselected one only recurses; child count and attribute names/order are preserved; xq prints one line per "
+             "key of the (document-ordered, duplicate-free by C07) node-set or the scalar; every failing stage is the error "
+             "outcome. Tie: the real xq / xe binaries built from the working tree are run as processes on generated "
+             "documents x selectors x replacement fragments x --setns bindings, with and without --no-indent: exit "
+             "status/stderr classes (never a crash), stdout equal to the model's, xe's compact output re-parsed and re-printed "
+             "by the library equals itself.",
+        note="Trusted: Lean kernel, tools/props/c17.py (process runner, classification), generators. That the compact "
+             "output parses back is checked per run, not proved (it would need the printer/parser round-trip theorem of C04 "
+             "for all trees). Documents with more than one defaulted attribute in a node-set fall under the recorded "
+             "finding default-attr-order (C05/C07) and are not generated here. Indented output: outcome class and "
+             "well-formedness only.",
+        technique="Lean 4 proof (frame/effect theorems by structural induction on the tree rewrite) + differential correspondence "
+                  "against the real binaries",
+        ref="DESIGN.md section 6 C17"),
     "C02": dict(
         text="Kernel-checked soundness of the parser model for all strings: whatever is reported as a document is a "
              "derivation of the context-free reading of the grammar TRANSLATED FROM THE RUST SOURCE on this run, flattens to "
